@@ -24,3 +24,25 @@ package proto
 //@ trusted
 //@ pure
 //@ nondet
+
+//@ func PutRequest.GetSequenceKeyDelta
+//@ property C12
+//@ pure
+//@ reads fields(PutRequest)
+//@ ensures x != nil ==> result == x.SequenceKeyDelta
+
+// Pooled protobuf objects: a fresh (or recycled, hence arbitrary content) object.
+//@ func StorageEntryFromVTPool
+//@ trusted
+//@ pure
+//@ nondet
+//@ ensures result != nil && fresh(result)
+
+//@ func StorageEntry.ReturnToVTPool
+//@ trusted
+//@ modifies fields(StorageEntry)
+
+//@ func StorageEntry.MarshalVT
+//@ trusted
+//@ pure
+//@ nondet
